@@ -3,6 +3,7 @@
 package lab
 
 import (
+	"reflect"
 	"encoding/hex"
 	"encoding/json"
 	"fmt"
@@ -24,6 +25,7 @@ type c10Arg struct {
 	PL     int    `json:"pl"`
 	Single bool   `json:"single"`
 	Seq    bool   `json:"seq"`
+	Cfg    map[string]int64 `json:"cfg,omitempty"` // configuration fields set to the given value (C17: small and zero-adjacent limits)
 	Source string `json:"src"` // peer | web | both | rain (a real rain seeding session, MSE negotiated)
 	Adv    bool   `json:"adv"` // a second, misbehaving peer is present (deviation alphabet enabled)
 }
@@ -113,6 +115,17 @@ func mkC10() *Scenario {
 		}
 		if arg.Source == "fastchoke" {
 			w.Cfg.DefaultRequestsOut = 2
+		}
+		for k, v := range arg.Cfg {
+			f := reflect.ValueOf(&w.Cfg).Elem().FieldByName(k)
+			switch f.Kind() {
+			case reflect.Int, reflect.Int64:
+				f.SetInt(v)
+			case reflect.Uint, reflect.Uint64, reflect.Uint32, reflect.Uint16:
+				f.SetUint(uint64(v))
+			default:
+				core.HarnessError("c10: configuration field %s cannot be set", k)
+			}
 		}
 		w.OpenSession()
 		opt := &torrent.AddTorrentOptions{Stopped: true, Sequential: arg.Seq}
